@@ -2,9 +2,10 @@
 import ast
 import re
 
-from ..model import U, AnalysisError
+from ..model import U, AnalysisError, body_without_doc
 from ..absint import Interp, Ctor, Bits, Lin, Const, Opq, PathCap, candidates, parse_atom, strip_ver
 from ..refs import mc6809
+from ..consteval import try_fold as try_fold_
 
 REGS = "XYUS"
 PLAIN = list(REGS)
@@ -196,7 +197,11 @@ def _judge(ctx, c_enc1, c_enc2, c_enc3, c_enc4, c_enc6, cls, indirect):
     n_paths = 0
     seen = {}
 
+    n_open = [0]
+
     def emit(c, verdict, site, fact, text="", where=""):
+        if verdict not in ("ok", "finding"):
+            n_open[0] += 1      # counted whichever rule is being collected: an open question anywhere makes "form not reachable" unsafe to conclude
         if c is None:
             return
         k = (id(c), site, fact, verdict)
@@ -469,7 +474,7 @@ def _judge(ctx, c_enc1, c_enc2, c_enc3, c_enc4, c_enc6, cls, indirect):
         for f in need:
             if f in forms_reached:
                 c_enc1.ok(site0 + ":reach:" + f, "reached", where0, nontrivial=False)
-            elif n_paths >= 20:
+            elif n_paths >= 20 and not n_open[0]:
                 c_enc1.finding(site0 + ":reach:" + f, "form-not-reachable", "%s.translate() has no return path for the datasheet form %s" % (cls, f), where0)
             else:
                 c_enc1.undecided(site0 + ":reach:" + f, "form-not-seen", "", where0)
@@ -706,11 +711,58 @@ def enc7(ctx, c):
         c.finding("create_from_str:exhausted", "no raise at all", "create_from_str returns None when no class accepts the operand", where)
     else:
         c.undecided("create_from_str:exhausted", "shape-not-recognised", "", where)
-    # Unknown -> Direct / Extended
+    # Unknown -> Direct / Extended, decided by evaluating Operand.resolve_symbols for each kind of (value as written, value after resolution)
     rs = repo.method("Operand", "resolve_symbols", inherited=False)
     wr_ = repo.loc(rs, rs.node)
+    from ..concrete import Obj as _Oe, ClsRef as _Ce, Desc as _De, run_concrete as _rce
+    cfgs = [("written with <, resolves to a number", dict(xd=True), dict(numeric=True, direct=False), "DirectOperand"),
+            ("a number marked direct", dict(xd=False), dict(numeric=True, direct=True), "DirectOperand"),
+            ("a number not marked direct", dict(xd=False), dict(numeric=True, direct=False), "ExtendedOperand"),
+            ("resolves to a label", dict(xd=False), dict(numeric=False, direct=False), "ExtendedOperand"),
+            ("written with <, resolves to a label", dict(xd=True), dict(numeric=False, direct=False), "ExtendedOperand")]
+    ev_ok, ev_bad, ev_notes = 0, [], []
+    for title, oldp, newp, want_cls in cfgs:
+        new_o = _Oe("Value", label="<resolved value>")
+        new_o.attrs.update({"numeric": newp["numeric"], "direct": newp["direct"], "xd": False, "int": 0x10})
+        old_o = _Oe("Value", label="<value as written>")
+        old_o.attrs.update({"numeric": False, "direct": False, "xd": oldp["xd"], "int": 0})
+        hk = {("*", "resolve"): (lambda r, a, _n=new_o: _n), ("*", "is_numeric"): (lambda r, a: bool(r.attrs.get("numeric"))), ("*", "is_direct"): (lambda r, a: bool(r.attrs.get("direct"))),
+              ("*", "is_explicit_direct"): (lambda r, a: bool(r.attrs.get("xd"))), ("self", "is_unknown"): (lambda a: True)}
+        for pn in ("is_extended", "is_explicit_extended", "is_symbol", "is_address", "is_expression", "is_address_expression", "is_immediate", "is_none"):
+            hk.setdefault(("*", pn), (lambda r, a: False))
+        enve = dict(ctx.env)
+        for cn in ("DirectOperand", "ExtendedOperand", "DirectNumericValue", "ExtendedNumericValue", "NumericValue"):
+            enve[cn] = _Ce(cn)
+        enve.update({"self.value": old_o, "self.operand_string": "TEXT", "self.instruction": _De("self.instruction")})
+        evs, nts = [], []
+        end_ = _rce(body_without_doc(rs.node), enve, evs, nts, hooks=hk)
+        ev_notes += nts
+        rv = enve.get("$return")
+        got = rv.cls if isinstance(rv, _Oe) else repr(rv)
+        if got == want_cls and want_cls == "ExtendedOperand":
+            carried = rv.attrs.get("value", rv.args[2] if len(getattr(rv, "args", [])) > 2 else None)
+            if carried is not new_o:
+                got = "ExtendedOperand carrying %r instead of the resolved value itself" % (carried,)
+        if got == want_cls and want_cls == "DirectOperand":
+            carried = rv.attrs.get("value", rv.args[2] if len(getattr(rv, "args", [])) > 2 else None)
+            if not (isinstance(carried, _Oe) and carried.cls == "DirectNumericValue" and getattr(carried, "args", [None])[:1] == [0x10]):
+                got = "DirectOperand carrying %r" % (carried,)
+        if got == want_cls:
+            ev_ok += 1
+        else:
+            ev_bad.append((title, got, want_cls))
+    resolved_eval = not ev_notes
+    if resolved_eval:
+        if ev_bad:
+            t_, g_, w_ = ev_bad[0]
+            c.finding("Operand.resolve_symbols:%s" % ("direct" if w_ == "DirectOperand" else "extended"), "an operand %s becomes %s" % (t_, g_),
+                      "Operand.resolve_symbols, evaluated for an unclassified operand %s, returns %s; it must become %s carrying the resolved value (the < prefix is a property of "
+                      "the text as written: the value a symbol resolves to no longer carries it; a value re-built from its magnitude loses its sign and width)" % (t_, g_, w_), wr_)
+        else:
+            c.ok("Operand.resolve_symbols:direct", "DirectOperand for a direct number or a < operand that resolves to a number (5 configurations evaluated)", wr_)
+            c.ok("Operand.resolve_symbols:extended", "ExtendedOperand otherwise", wr_)
     try:
-        outs = Interp(rs.node).run()
+        outs = Interp(rs.node).run() if not resolved_eval else []
     except PathCap as e:
         c.undecided("Operand.resolve_symbols", "path-cap", str(e), wr_)
         outs = []
@@ -749,6 +801,17 @@ def enc7(ctx, c):
         c.ok("Operand.resolve_symbols:resolve", "the value is resolved against the symbol table", wr_)
     else:
         c.finding("Operand.resolve_symbols:resolve", "no resolve call", "Operand.resolve_symbols never resolves its value against the symbol table", wr_)
+    # the [address] form is followed by a 16-bit address: its value is parsed with the extended default
+    if repo.has_cls("ExtendedIndexedOperand"):
+        ei = repo.method("ExtendedIndexedOperand", "__init__", inherited=False)
+        for n_ in ast.walk(ei.node):
+            if isinstance(n_, ast.Assign) and U(n_.targets[0]) == "self.value" and isinstance(n_.value, ast.Call) and U(n_.value.func) == "Value.create_from_str":
+                kwd = {k.arg: try_fold_(k.value, ctx.env) for k in n_.value.keywords if k.arg}
+                pos3 = try_fold_(n_.value.args[2], ctx.env) if len(n_.value.args) > 2 else None
+                dme = kwd.get("default_mode_extended", pos3 if len(n_.value.args) > 2 else True)
+                c.check(dme is not False, "ExtendedIndexedOperand.__init__:[address]", "the bracketed address is parsed as a 16-bit value", "parsed with default_mode_extended=False",
+                        "ExtendedIndexedOperand.__init__ parses the text between the brackets with default_mode_extended=False: `[$0010]` is then a value without the extended "
+                        "width, and the 9F form, which is followed by a 16-bit address, is emitted a byte short", repo.loc(ei, n_))
     # prefixes -> explicit modes
     cf = repo.method("Value", "create_from_str", inherited=False)
     wc = repo.loc(cf, cf.node)
@@ -872,6 +935,11 @@ def enc7(ctx, c):
                 c.finding("%s.resolve_symbols:accumulator-test" % cls, "substring test %s" % U(n_),
                           "%s.resolve_symbols decides whether the offset is an accumulator with `%s`, a substring test: an offset spelled AB or BD is taken for an accumulator, "
                           "is never looked up, and the statement is encoded without the label's value" % (cls, U(n_)), repo.loc(f, n_))
+        for n_ in ast.walk(f.node):
+            if isinstance(n_, ast.If) and "is_symbol()" in U(n_.test) and re.search(r"\bin symbol_table\b|symbol_table\.get\(|in symbol_table\.keys\(\)", U(n_.test)):
+                c.finding("%s.resolve_symbols:undefined-symbol" % cls, "a symbol is looked up only if it is in the table (%s)" % U(n_.test)[:60],
+                          "%s.resolve_symbols resolves the offset symbol only when `%s`: an undefined name is skipped instead of reaching Value.get_symbol, the one place that "
+                          "reports it, and the statement assembles with the offset missing" % (cls, U(n_.test)[:80]), repo.loc(f, n_))
         for n_ in ast.walk(f.node):
             if isinstance(n_, ast.If) and re.search(r"'A'|ACCUMULATOR|accumulator", U(n_.test)) and "symbol_table" in U(n_.test):
                 c.finding("%s.resolve_symbols:accumulator-test" % cls, "the accumulator test consults the symbol table (%s)" % U(n_.test)[:70],
